@@ -11,7 +11,7 @@ from vlib.runner import Stats, Violation, sut
 ID = "C13"
 RULE = (
     "case = instant (int us 1970..2100, boundary-biased) x UTC offset (whole minutes in [-14h,+14h]) x presentation "
-    "(aware datetime at a fixed offset | aware datetime in a real DST-observing zone from zoneinfo, instants biased to the repeated/skipped hour so that fold=1 occurs | ISO-8601 spelling: T/space, 0/3/6 fraction digits, Z, +hh:mm, +hhmm) x duration (int s | float s | timedelta, "
+    "(aware datetime at a fixed offset | aware datetime in a real DST-observing zone from zoneinfo, instants biased to the repeated/skipped hour so that fold=1 occurs | ISO-8601 spelling: T/space, 0/3/6 fraction digits, Z, +hh:mm, +hhmm; minimal fractions such as .5 or .87), given to the constructor and by assignment to an existing event; x duration (int s | float s | timedelta, "
     "negative allowed, |d| <= 1e7 s) x JSON data x id (None|int|str). Oracle: integer-arithmetic ms floor, exact-rational duration "
     "rounding (<= 1/2 us), schema validation with date-time format checking, equality+id after JSON and Event(**event) round trips. "
     "Non-trivial = (us % 1000 != 0 and offset != 0) or a float duration that is not an exact multiple of 1 us. Distinct by SHA-1 of the case. "
@@ -133,6 +133,13 @@ def run_case(case):
     with sut("constructing Event"):
         e = Event(id=case["id"], timestamp=tsin, duration=durin, data=data)
     _check_ts(e, us, f"Event(timestamp={tsin!r})")
+    # ... however it is given: also by assignment to an existing event
+    with sut("event.timestamp = ..."):
+        ea = Event(id=case["id"], timestamp=gen.dt_utc(86400 * 10**6), duration=durin, data=json.loads(json.dumps(case["data"])))
+        ea.timestamp = tsin
+    _check_ts(ea, us, f"event.timestamp = {tsin!r}")
+    if not (ea == e):
+        raise Violation(f"an event whose timestamp was assigned differs from one constructed with it: {dict(ea)!r} vs {dict(e)!r}")
     d = e.duration
     if not isinstance(d, timedelta):
         raise Violation(f"duration is not a timedelta: {d!r}")
